@@ -64,23 +64,25 @@ func RebalanceWeight(clusters []*WeightCluster, initialWeight int) {
 		return
 	}
 	// Agent works better if weight is `initial-weight` or
-	// at least the higher value weightFactor will let it to be
-	// weightFactorMin has how many times minWeight is lesser than `initial-weight`.
-	weightFactorMin := float32(initialWeight*gcdClusterWeight) / float32(minWeight)
+	// at least the higher value the 0..256 range will let it to be.
+	// All the divisions below are calculated using integers, so a group
+	// with a non zero weight never has its weight truncated down to zero.
 	// HAProxy weight must be between 0..256.
-	// weightFactor has how many times the max weight will be greater than 256.
-	weightFactor := weightFactorMin * float32(maxWeight) / float32(256*gcdClusterWeight)
 	// LCM of denominators and GCD of the results are known. Updating ep.Weight
+	scale := initialWeight*maxWeight > 256*minWeight
 	for _, cl := range clusters {
-		weight := weightFactorMin * float32(cl.Weight*lcmCount) / float32(cl.Length*gcdClusterWeight)
-		if weightFactor > 1 {
-			propWeight := int(weight / weightFactor)
+		if cl.Length == 0 {
+			continue
+		}
+		clusterWeight := cl.Weight * lcmCount / cl.Length
+		if scale {
+			propWeight := 256 * clusterWeight / maxWeight
 			if propWeight == 0 && cl.Weight > 0 {
 				propWeight = 1
 			}
 			cl.Weight = propWeight
 		} else {
-			cl.Weight = int(weight)
+			cl.Weight = initialWeight * clusterWeight / minWeight
 		}
 	}
 }
